@@ -27,6 +27,8 @@ def _case(i):
         forced_stdin = rng.choice(gen.MULTILINE) if rng.random() < 0.8 else None
     elif i % 12 == 9:
         name, prog = 'tmpl:forward_jump', gen.tmpl_forward_jump(rng)
+    elif i % 24 == 1:
+        name, prog = 'tmpl:loop_carried', gen.tmpl_loop_carried(rng)
     elif i % 24 == 13:
         name, prog = 'tmpl:skip_loop', gen.tmpl_skip_loop(rng)
         forced_stdin = rng.choice(gen.SKIP_STDINS) if rng.random() < 0.85 else None
